@@ -9,9 +9,13 @@ import SfsModel.Lemmas.TextRoundtrip
 namespace Sfs.C07
 open Sfs
 
-/-- A spectrum as the writer sees it: non-empty shape whose element count fits `usize`, one pattern per element. -/
+/-- A spectrum as the writer sees it: non-empty shape, one pattern per element, where the element count is the
+    *checked* left-to-right product — exactly the `Array::new` invariant (`Arr.new?`) every constructible spectrum
+    satisfies. The plain `size shape < 2^64 ∧ bits.length = size shape` formulation is too weak: for
+    shape `[2^63, 2^63, 0]`, `bits = []` the product is 0 but `checked_elements` overflows on the prefix, so both
+    readers reject what the writers emit. -/
 def WfSpectrum (shape bits : List Nat) : Prop :=
-  shape ≠ [] ∧ (∀ v ∈ shape, v < 2 ^ 64) ∧ size shape < 2 ^ 64 ∧ bits.length = size shape ∧ ∀ b ∈ bits, b < 2 ^ 64
+  shape ≠ [] ∧ (∀ v ∈ shape, v < 2 ^ 64) ∧ checkedSize shape = some bits.length ∧ ∀ b ∈ bits, b < 2 ^ 64
 
 /-- npy_roundtrip: writing any spectrum and reading it back returns the same shape and bit-identical values
     (NaN payloads, infinities, signed zeros, subnormals included). -/
